@@ -8,6 +8,11 @@ ALL = [f'C{i:02d}' for i in range(1, 21)]
 
 # id -> (level text, level note, technique, design ref)
 CHECKS = {
+    'C03': (
+        'Explicit-state BFS over the real API: initial states are all parser results on the term universe (quick 4, thorough 5 nodes) as expression and predicate plus a property family; transitions are simplify, split_and elements, refactor_reference halves, both replacements, negate, join with a predicate menu and canonical_form outputs; all compositions to depth 2 (the depth the property states), states deduplicated on the typed lift; an independent per-node typing invariant is evaluated on every node of every state.',
+        'The invariant table (hplmc/ref/types.py: operator/function signatures, kind allowances) is hard-coded from the documented language and trusted; bound-variable use is checked with the weakest reading.',
+        'explicit-state BFS (depth 2) over rewriting-call histories with a per-node typing invariant',
+    ),
     'C18': (
         'Bounded-exhaustive differential exploration: all sequences of 1..3 properties from a 14-text pool (longer ones over a 4-text sub-pool) x every annotation arrangement on a bounded number of members x separators, plus every one-invalid-member variant at every index and the empty/blank/dangling files; the specification parser result is compared index by index (typed tree and metadata) with the property parser on each part, and error classes with the offending part alone.',
         'The property parser on the parts is the reference; its own correctness is C01. Files longer than the bounds and separators other than the three forms are not explored.',
